@@ -1405,11 +1405,21 @@ func (cs *ClientSession) Subscribe(ctx context.Context, params *SubscribeParams)
 		return nil
 	}
 
-	return cs.subscriptionsListen(listenCtx, &SubscriptionsListenParams{
+	err := cs.subscriptionsListen(listenCtx, &SubscriptionsListenParams{
 		Notifications: &NotificationSubscriptions{
 			ResourceSubscriptions: []string{uri},
 		},
 	})
+	if err != nil {
+		// The listen could not be opened: forget the subscription again.
+		cs.resourceSubsMu.Lock()
+		if cancel, ok := cs.resourceSubs[uri]; ok {
+			delete(cs.resourceSubs, uri)
+			cancel()
+		}
+		cs.resourceSubsMu.Unlock()
+	}
+	return err
 }
 
 // Unsubscribe cancels a previous [ClientSession.Subscribe] for params.URI.
